@@ -56,7 +56,8 @@ def run(ctx):
     float_oracle(ctx, impl)
     # 4. pending calls fail with DeadReferenceError on teardown
     pending_calls(ctx, impl, eps)
-    tm['float+calls'] = round(_t.time() - ctx.t0, 1)
+    tub_level(ctx, impl)
+    tm['float+calls+tubs'] = round(_t.time() - ctx.t0, 1)
     # 5. PING / PONG
     pingpong(ctx, impl, model_ok)
     tm['pingpong'] = round(_t.time() - ctx.t0, 1)
@@ -480,6 +481,66 @@ def pending_calls(ctx, impl, eps):
         for sig, what in bad:
             ctx.fail(sig, what + "  [K=%r T=%r calls=%d events=%r]" % (K, T, ncalls, ev),
                      replay=dict(K=K, T=T, calls=ncalls, events=ev))
+
+
+# ------------------------------------------------------------------------------------------ Tub level
+
+def tub_level(ctx, impl):
+    """pb.py options -> negotiation -> two live Brokers pinging each other over the in-memory network"""
+    rng = ctx.rng
+    eps = impl._ORIG_EPS
+    plans = [(2, 6, None), (2, 6, 10.0), (None, 6, None), (None, None, 10.0), (3, None, 7.5), (2, 3, 4.25)]
+    for _ in range(ctx.n(4, 60)):
+        K = rng.choice([None, 2, 3, 5])
+        T = rng.choice([None, 4, 6, 9])
+        plans.append((K, T, rng.choice([None, round(rng.uniform(1, 20), 2)])))
+    for K, T, hole in plans:
+        horizon = 45.0
+        r = impl.tub_pair(K, T, hole, horizon)
+        ctx.case(["tubs", K, T, hole], nontrivial=True)
+        ctx.hist("origin", "tub-level")
+        bad = []
+        if "error" in r:
+            ctx.fail("harness/tub-pair", r["error"], has_input=False)
+            continue
+        if r["opts"] != [(K, T), (K, T)]:
+            bad.append(("oracle/options-not-applied", "brokers run with (keepalive, disconnect) = %r" % (r["opts"],)))
+        tol = 1e-6
+        alltorn = [x for (x, _) in r["torn"]]
+        for bi in range(r["nbrokers"]):
+            dl = r["deliv"][bi]
+            torn_b = [x for (x, i) in r["torn"] if i == bi]
+            if T is None:
+                if torn_b:
+                    bad.append(("oracle/teardown-without-timeout", "link torn down at %r without disconnectTimeout" % (torn_b,)))
+                continue
+            if len(torn_b) > 1:
+                bad.append(("oracle/teardown-twice", "connectionTimedOut called at %r" % (torn_b,)))
+            for x in torn_b:
+                last = max([d for d in dl if d < x] or [0.0])
+                if x - last <= T - tol:
+                    bad.append(("oracle/early-teardown", "teardown at %r although data was delivered to this broker at %r (T=%r)" % (x, last, T)))
+                if x > last + 2 * T + eps + tol:
+                    bad.append(("oracle/late-or-no-teardown", "last delivery at %r, teardown only at %r" % (last, x)))
+            if not torn_b and not alltorn:
+                last = max(dl or [0.0])
+                if r["end"] - last > 2 * T + eps + tol:
+                    bad.append(("oracle/late-or-no-teardown", "nothing delivered to this broker since %r, clock at %r, no teardown" % (last, r["end"])))
+        if not alltorn and hole is None and K is not None and r["end"] > 2 * K + eps:
+            if r["wire_pings"] == 0 or r["wire_pongs"] != r["wire_pings"]:
+                bad.append(("oracle/pong-mismatch", "%d PINGs and %d PONGs on the wire" % (r["wire_pings"], r["wire_pongs"])))
+        kinds = [k for (_, k) in r["kinds"]]
+        if r["caller_dead"] and kinds != ["DeadReferenceError"]:
+            bad.append(("oracle/pending-call-not-failed", "the caller's connection is gone but the pending callRemote ended as %r" % (r["kinds"],)))
+        if not r["caller_dead"] and kinds:
+            bad.append(("oracle/call-failed-early", "the caller's connection is alive but the pending callRemote ended as %r" % (r["kinds"],)))
+        if r["live"] == 0 and r["timers_left"]:
+            bad.append(("oracle/timer-after-close", "%d keepalive/disconnect timers pending after the links closed" % r["timers_left"]))
+        if r["timers_left_after_stop"]:
+            bad.append(("oracle/timer-after-close", "%d timers pending after Tub.stopService" % r["timers_left_after_stop"]))
+        for sig, what in bad:
+            ctx.fail(sig, "(two Tubs, K=%r T=%r s, network black hole at %r) %s" % (K, T, hole, what),
+                     replay=dict(K=K, T=T, blackhole_after=hole, observed={k: v for k, v in r.items() if k not in ("results", "deliv")}))
 
 
 # ------------------------------------------------------------------------------------------ PING / PONG
